@@ -3,8 +3,12 @@
 read/write/close calls, Flush) composed with the WsSessionMon monitor; the
 transition cover and seeded random behaviours are replayed into the real
 websocket.Stream on a scripted in-memory transport whose output is parsed by
-the harness's own RFC 6455 parser; recorded traces are validated by TLC
-against the monitor."""
+the harness's own RFC 6455 parser; the transition cover of WsAsyncImpl (the
+asynchronous paths at callback granularity) is replayed on the same transport
+with deferred completions, so that every stage is also judged between the
+start of an asynchronous call and the completion of its transport write;
+recorded traces are validated by TLC against the monitor with the C08 rules in
+focus."""
 import json, os
 import vlib
 from checks import wsval
@@ -14,18 +18,25 @@ LEVEL = "model_checking"
 MANIFEST = dict(
    engine="tlc-wssession", path="spec/WsSession",
    technique="TLA+ monitor + implementation model checked exhaustively by TLC; TLC-generated transition cover and random behaviours replayed into the real websocket.Stream over a scripted transport; recorded traces validated by TLC against the monitor",
-   text="Exhaustive TLC check of WsSessionImpl (Stream.state, pendingFrames, handleFrame/handleControlFrame incl. the 1002 path, gates of Write*/Close/NextFrame/NextMessage and their asynchronous twins, Flush/AsyncFlush) composed with the property monitor WsSessionMon for all interleavings of up to 5 peer events {data, ping, pong, valid/empty/invalid close, protocol violation, EOF, transport error} with up to 4 local calls (12 APIs), which reaches and continues from every stage. Every transition of the state graph at the cover bound (shortest path + edge) and seeded random behaviours at the full bound are replayed on the real Stream attached (hook VerifAttach) to a scripted transport, under three read segmentations and rotating concrete frame variants (7 violation kinds, 5 invalid and 6 valid close payloads); what the client writes is parsed by an independent RFC 6455 parser; State() and Pending() are sampled after every step. TLC validates every recorded trace against the monitor; verdicts come only from recorded real-code traces.",
-   note="Trusted: TLC, the Go replay driver (scripted transport, frame builder, wire parser), JSON trace I/O. The transport completes writes inline (deferred completions belong to C17); write failures are not injected; peer frames arrive whole or byte-wise, fragmentation of data messages belongs to C06.",
+   text="Exhaustive TLC check of WsSessionImpl (Stream.state, pendingFrames, handleFrame/handleControlFrame incl. the 1002 path, gates of Write*/Close/NextFrame/NextMessage and their asynchronous twins, Flush/AsyncFlush) composed with the property monitor WsSessionMon for all interleavings of up to 5 peer events {data, ping, pong, valid/empty/invalid close, protocol violation, EOF, transport error} with up to 4 local calls (12 APIs), which reaches and continues from every stage; exhaustive TLC check of WsAsyncImpl (the asynchronous calls at callback granularity over a transport that completes reads and writes only when the schedule says so, partial acceptance, up to two write-side calls in flight) composed with the same monitor. Every transition of the state graph at the cover bound (shortest path + edge) and seeded random behaviours at the full bound are replayed on the real Stream attached (hook VerifAttach) to a scripted transport, under three read segmentations and rotating concrete frame variants (7 violation kinds, 5 invalid and 6 valid close payloads); what the client writes is parsed by an independent RFC 6455 parser; State() and Pending() are sampled after every step. Every transition of the WsAsyncImpl graph (peer events {ping, valid/invalid close, violation, EOF} x calls {AsyncNextFrame, AsyncNextMessage, AsyncWrite, AsyncClose} x every order of transport completions) is replayed on the same Stream with deferred completions, so State(), the write/close gates and the wire are also judged while a Close or a reply is still in flight. TLC validates every recorded trace against the monitor with the C08 rules in focus (what the C17 rules of the shared monitor would have rejected is listed in the evidence, not reported); verdicts come only from recorded real-code traces.",
+   note="Trusted: TLC, the Go replay driver (scripted transport, frame builder, wire parser), JSON trace I/O. Deferred completions are scripted (the scripted transport mimics sonic.AsyncAdapter's single read/write records; real sockets belong to C17); write failures are not injected; peer frames arrive whole or byte-wise, fragmentation of data messages belongs to C06.",
    design_ref="5/C08")
 
 ALL_PEER = '{"data", "ping", "pong", "closeValid", "closeEmpty", "closeInvalid", "viol", "eof", "err"}'
+ALL_PEER_ASYNC = '{"data", "ping", "pong", "closeValid", "closeInvalid", "viol", "eof"}'
+ASYNC4 = '{"AsyncNextFrame", "AsyncNextMessage", "AsyncWrite", "AsyncClose"}'
+ASYNC6 = '{"AsyncNextFrame", "AsyncNextMessage", "AsyncWrite", "AsyncWriteFrame", "AsyncFlush", "AsyncClose"}'
 PAR = int(os.environ.get("VERIF_PAR", str(vlib.NCPU)))
 
 
-def _validate(ck, sw, name, beh, label, mode, seed):
+def _validate(ck, sw, name, beh, label, mode, seed, comp="wssession"):
     trace = os.path.join(ck.work, "trace_%s.ndjson" % name)
-    summ, _ = vlib.run_replay(["wssession", "-in", beh, "-out", trace, "-seed", str(seed), "-mode", mode])
-    bads = wsval.validate(sw, trace, PAR)
+    summ, _ = vlib.run_replay([comp, "-in", beh, "-out", trace, "-seed", str(seed), "-mode", mode], timeout=1500)
+    # the C08 rules of the shared monitor are in focus; C17 rules are noted, not enforced
+    bads, others = wsval.validate(sw, trace, PAR, focus=("C08",))
+    wsval.note_others(ck, others, label)
+    ck.cov.setdefault("runs", []).append({"run": label, "scenarios": summ["scenarios"], "events": summ["events"],
+                                          "rejected": len({b[0] for b in bads}), "drift_steps": summ["drift"]})
     ck.cov["evaluations"] += summ["scenarios"]
     ck.cov["distinct_nontrivial"] += summ["nontrivial"]
     ck.cov["traces_validated_against_impl"] += summ["scenarios"] - len({b[0] for b in bads})
@@ -35,7 +46,7 @@ def _validate(ck, sw, name, beh, label, mode, seed):
     for sid, i, key in bads:
         ck.report_bad(key, "websocket session trace rejected at event %d of scenario %d (%s)" % (i, sid, label),
                       lambda sid=sid, i=i, key=key: {
-                          "property": ck.pid, "component": "wssession", "rule": key, "event": i,
+                          "property": ck.pid, "component": comp, "rule": key, "event": i,
                           "mode": mode + ",sidbase=%d" % (sid - 1), "seed": seed,
                           "behaviour": json.loads(vlib.nth_line(beh, sid)),
                           "trace": vlib.read_scenario(trace, sid)})
@@ -53,7 +64,8 @@ def run(ck):
     sw = vlib.prep_spec("WsSession", ck.work)
     quick = ck.tier == "quick"
     ck.cov["rule"] = ("behaviours = every transition of the exhaustive WsSessionImpl state graph at the cover bound (shortest path + "
-                      "edge) plus seeded random behaviours at the full bound, each replayed under the listed segmentations; "
+                      "edge) plus seeded random behaviours at the full bound, each replayed under the listed segmentations, plus "
+                      "every transition of the WsAsyncImpl state graph replayed with deferred transport completions; "
                       "non-trivial = the behaviour put a Pong or a Close on the wire or surfaced a peer Close")
     model_findings = set()
 
@@ -83,6 +95,28 @@ def run(ck):
                         out.write(line)
             _validate(ck, sw, "cover_b", sub, "a third of the transition cover, byte-wise reads, other frame variants",
                       "split=byte,variant=3", ck.seed)
+
+    def deferred():
+        # the asynchronous calls at callback granularity: completions of transport reads and writes are
+        # steps of the schedule, so peer events and further calls land between the start of an
+        # AsyncClose / AsyncWrite / reply flush and its completion
+        consts = {"MaxPeer": 3, "MaxCalls": 3, "Partial": "TRUE", "MaxWriters": 1,
+                  "PeerKinds": '{"ping", "closeValid", "closeInvalid", "viol", "eof"}' if quick else ALL_PEER_ASYNC,
+                  "CallApis": ASYNC4 if quick else ASYNC6}
+        cfg = vlib.cfg_with(sw, "WsAsyncImpl_mc.cfg", consts)
+        r = vlib.tlc(sw, "WsAsyncImpl", cfg, workers=2 if quick else 4, timeout=3000, env={"JAVA_TOOL_OPTIONS": "-Xmx4g"})
+        if not r.ok:
+            raise vlib.Inconclusive("WsAsyncImpl cover: %s\n%s" % (r.violated or r.error, r.tail()))
+        ck.add_tlc("WsAsyncImpl transition cover (deferred completions)", r, consts)
+        for line in r.lines('<<"MODELBAD"'):
+            model_findings.add(line.split('"')[3])
+        beh = os.path.join(ck.work, "cover_deferred.jsonl")
+        n = vlib.edges_to_file(r, beh)
+        os.remove(r.outpath)
+        if n == 0:
+            raise vlib.Inconclusive("deferred cover produced no behaviours")
+        _validate(ck, sw, "deferred", beh, "WsAsyncImpl transition cover %dx%d, deferred completions" % (consts["MaxPeer"], consts["MaxCalls"]),
+                  "split=frame", ck.seed, comp="wssession-deferred")
 
     def count():
         consts = {"MaxPeer": 5, "MaxCalls": 4, "BUG_SecondClose": "FALSE"}
@@ -118,7 +152,7 @@ def run(ck):
 
     with ThreadPoolExecutor(max_workers=6) as ex:
         # quick: the cover run is the exhaustive run (3x3); thorough adds the exhaustive 5x4 run
-        futs = [ex.submit(cover), ex.submit(bugdemo)] + ([] if quick else [ex.submit(count)]) + \
+        futs = [ex.submit(cover), ex.submit(deferred), ex.submit(bugdemo)] + ([] if quick else [ex.submit(count)]) + \
                [ex.submit(sim, k) for k in range(2 if quick else 3)]
         for f in futs:
             f.result()
@@ -127,7 +161,8 @@ def run(ck):
     ck.cov["exhaustive"] = True
     ck.assumptions += [
         "peer frames are small (8..16 byte payloads, one 126 byte control frame); payload identity is checked through generator tokens",
-        "the scripted transport never fails a write and completes it inline; deferred completions are C17",
+        "the scripted transport never fails a write; inline runs complete it inside the call, deferred runs when the schedule says so (one read and one write record like sonic.AsyncAdapter, partial acceptance at half-frame boundaries)",
+        "rules of C17 (the other property of the shared monitor) are not enforced here: coverage.other_property_rejections lists what they would have rejected",
         "State() is compared as a stage class: closedByPeer/closeAcked may already show terminated (the asynchronous read path moves on reporting end-of-stream, the blocking one does not)"]
 
 
@@ -138,4 +173,5 @@ def replay(ck, path):
     beh = os.path.join(ck.work, "replay.jsonl")
     with open(beh, "w") as f:
         f.write(json.dumps(obj["behaviour"]) + "\n")
-    _validate(ck, sw, "replay", beh, "replay of " + os.path.basename(path), obj.get("mode", "split=frame"), obj.get("seed", ck.seed))
+    _validate(ck, sw, "replay", beh, "replay of " + os.path.basename(path), obj.get("mode", "split=frame"), obj.get("seed", ck.seed),
+              comp=obj.get("component", "wssession"))
